@@ -366,7 +366,9 @@ def stepOp1 (a : TAcc) (line : String) : TAcc :=
     -- history of its own (its records are printed first, like `fin`), the step-level replay continues across it
     match ssizeOf? mn, ssizeOf? mx with
     | some smn, some smx =>
-      if !a.configured || !a.h.isPool || !a.cleaned || a.destroyed || a.fin || a.failN != 0 || a.h.bulkN != 0 || (smn > 64 && smn ≤ smx) then bad else
+      -- a pending `failspawn k` is admitted only if it hits THIS initialize(): valid arguments and k <= min
+      let failsInit := a.failN != 0 && Cfg.okI smn smx && a.failN ≤ smn.toNat
+      if !a.configured || !a.h.isPool || !a.cleaned || a.destroyed || a.fin || (a.failN != 0 && !failsInit) || a.h.bulkN != 0 || (smn > 64 && smn ≤ smx) then bad else
       let nLoop := a.h.tasks.size
       let a1 := takeEvents a
       if a1.err.isSome then a1 else
@@ -381,7 +383,23 @@ def stepOp1 (a : TAcc) (line : String) : TAcc :=
         | (none, _) => fail a "implementation output ends at relife (crash / timeout)"
         | (some l, a2) =>
           match words l with
+          | ["P", "initf", o, live, qb, ccs, qa] =>
+            -- initialize() after cleanup() whose k-th thread creation fails (fix C05-06): it has created k-1 workers, must stop
+            -- and join them itself (its own cleanup()) and refuse.  Model: `reinitF` (Life.lean); the replay takes the stand-in
+            -- `initialize(k-1, max (k-1) 1)` + cleanup(), exact by `C05_failed_initialize_reduces`
+            if !failsInit then fail a s!"impl=[{l}] but no thread creation was scheduled to fail"
+            else if o != "0" then fail a s!"initialize({smn}, {smx}) after cleanup() answered {o} although thread creation {a.failN} failed [{l}]"
+            else if live != "0" then fail a s!"initialize() failed and left worker threads running [{l}]"
+            else
+              let k := a.failN - 1
+              let a3 := a2.ev (qb.toNat?.getD 0) 0 (.api (.init k (if k == 0 then 1 else k)))
+              let a3 := if ccs.toNat?.getD 0 != 0 then (a3.ev (ccs.toNat?.getD 0) 0 (.api .cleanup)).ev (qa.toNat?.getD 0) 0 .cleanupRet else a3
+              { a3 with h := { isPool := true, max := smx.toNat }, nest := [], ready := false, segOk := true, cleaned := true, fin := false,
+                        spawns := 0, mn := k, failN := 0, life := a.life + 1, prevTasks := nLoop, ranTot := a.ranTot + a1.h.bodies.size,
+                        cbTot := a.cbTot + a1.h.cbs.size, pairsTot := a.pairsTot + n, segMd := a.segMd ++ md, bulkDrained := false,
+                        pendX := none, tags := "relife-spawn-failed" :: a3.tags }
           | ["P", "init", o, live, qb] =>
+            if failsInit then fail a s!"impl=[{l}] expected an initf line" else
             if o != (if ok2 then "1" else "0") then fail a s!"initialize({smn}, {smx}) after cleanup() answered {o}, expected {if ok2 then 1 else 0} [{l}]"
             else if live.toNat? != some (if ok2 then smn.toNat else 0) then
               fail a s!"initialize({smn}, {smx}) after cleanup(): {live} worker threads are alive, expected {if ok2 then smn.toNat else 0} [{l}]"
